@@ -6,8 +6,22 @@ steps, any number of rows): the batches delivered to the client followed by the 
 result are exactly the iterator's rows in order; every delivered batch has exactly `rowsBatch`
 rows; on error/cancellation the client has received a prefix; the pipeline never deadlocks and
 always terminates.
+
+Strengthened (seeded changes C35-1, C35-2):
+* the rows handed to the callback alias a pooled scratch buffer — memory model Gms/Model/BufPool.lean:
+  for every interleaving of any number of connections that keep the buffer discipline (borrowed
+  before spooling, returned after the final callback — regenerated facts `facts_match_buffer`),
+  every client reads exactly the bytes the engine produced (`buffer_isolation`,
+  `pending_rows_stable`); returning the buffer before the final callback is a violation of the
+  discipline and does corrupt a client's rows (`early_release_corrupts`);
+* the spooling dispatch of doQuery — model Gms/Model/Spool.lean: with a sound QFlagMax1Row the five
+  strategies deliver exactly the iterator's rows (`dispatch_exact`, `callbacks_sizes`,
+  `batchSizes_sum`), the flag is unobservable (`flag_unobservable`), and an unsound flag turns a
+  multi-row result into an error (`unsound_max1_flag_errors`).
 -/
 import Gms.Model.Pipeline
+import Gms.Model.Spool
+import Gms.Lemmas.BufPool
 import Gms.Generated.C35
 
 namespace Gms.Pipeline
@@ -275,5 +289,216 @@ example :
     let s := runSched c (init [1, 2, 3, 4, 5]) [0, 0, 1, 2, 2, 1, 0, 1] 100
     s.delivered = [[1, 2], [3, 4]] ∧ s.cur = [5] ∧ s.senderDone = true ∧ clientRows s = [1, 2, 3, 4, 5] := by
   decide
+
+/-! ### The scratch buffer: aliasing between connections -/
+section Buffer
+open Gms.BufPool
+
+/-- The buffer life time in the source on this run: borrowed and returned (by a function-level
+`defer`) in `doQuery`, the one function that makes the final callback and dispatches to the spooling
+helpers, and borrowed before any of them runs. This is `late = true` of `Gms.BufPool.compile`. -/
+theorem facts_match_buffer :
+    Gms.Generated.C35.bufGetFuncs = ["doQuery"] ∧ Gms.Generated.C35.bufPutFuncs = ["doQuery"] ∧
+    Gms.Generated.C35.bufPutDeferredTopLevel = true ∧ Gms.Generated.C35.bufGetBeforeSpool = true ∧
+    Gms.Generated.C35.finalCallbackFuncs = ["doQuery"] ∧
+    Gms.Generated.C35.spoolCallers = ["doQuery"] := by decide
+
+/-- Isolation: whatever the interleaving of the connections' statements (any number of
+connections, rows, batches), if every connection keeps the discipline then every client has read
+exactly the bytes the engine produced for the rows it was sent. -/
+theorem buffer_isolation (es : List Ev) (h : (run init es).bad = false) : Intact (run init es) :=
+  (inv_run init es inv_init h).recv
+
+/-- … and at every such moment every row that is still pending (spooled, not yet consumed by the
+callback) reads as the bytes written for it, and no two connections hold the same buffer. -/
+theorem pending_rows_stable (es : List Ev) (h : (run init es).bad = false) :
+    let s := run init es
+    (∀ c b, (s.conns c).held = some b → ∀ p ∈ (s.conns c).pending, deref s.bufs p.1 = p.2) ∧
+    (∀ c c' b, (s.conns c).held = some b → (s.conns c').held = some b → c = c') ∧
+    (∀ c b, (s.conns c).held = some b → b ∉ s.free) := by
+  have inv := inv_run init es inv_init h
+  exact ⟨fun c b hb p hp => (inv.pendHeld c b hb p hp).2.2, inv.heldInj,
+    fun c b hb => (inv.heldLt c b hb).2⟩
+
+/-- The discipline is necessary: when `doQuery` returns the buffer once spooling is finished —
+before the final callback — (`compile false`), a statement of another connection that runs before
+that callback overwrites the rows the first client is about to be sent. -/
+theorem early_release_corrupts :
+    let t := Stmt.mk 0 100 1 2 [(0, Stmt.mk 1 200 1 2 [])]
+    let s := run init (compile false 128 t)
+    s.bad = true ∧ (s.conns 0).sent = [[100, 100]] ∧ (s.conns 0).received = [[200, 200]] := by
+  decide
+
+/-- Non-vacuity of `buffer_isolation`: the same schedule with the source's discipline (`compile
+true`), and a bigger one (three connections, full batches of 2 rows, nested at different
+callbacks) keep the discipline and every client is intact. -/
+example :
+    let t := Stmt.mk 0 100 1 2 [(0, Stmt.mk 1 200 1 2 [])]
+    let s := run init (compile true 128 t)
+    s.bad = false ∧ (s.conns 0).received = [[100, 100]] ∧ (s.conns 1).received = [[200, 200]] := by
+  decide
+
+example :
+    let t := Stmt.mk 0 100 5 1 [(0, Stmt.mk 1 200 3 2 [(1, Stmt.mk 2 300 1 1 [])]), (2, Stmt.mk 3 400 0 1 [])]
+    let s := run init (compile true 2 t)
+    s.bad = false ∧ (s.conns 0).received = [[100], [101], [102], [103], [104]] ∧
+      (s.conns 1).received = [[200, 200], [201, 201], [202, 202]] ∧ (s.conns 2).received = [[300]] := by
+  decide
+
+/-! #### Known finding: server-side cursors
+
+Full statement (FALSE on the unchanged tree):
+  `∀ c rows between, let s := run init (cursorTrace c rows between); (s.conns c).received = (s.conns c).sent`
+— a client that executes a statement through a server-side cursor is sent the engine's rows. The
+cursor's pending result is written at FETCH time, after `doQuery` has returned the scratch buffer
+its rows point into; a statement of another connection in between overwrites them. -/
+
+/-- Witness (replayed on the real server by the `cursor` stream: the client fetches the rows of
+another connection's table, or is disconnected because the overwritten bytes no longer parse). -/
+theorem finding_cursor_pending_result_outlives_buffer :
+    ∃ c rows between, CursorRegion between ∧
+      ((run init (cursorTrace c rows between)).conns c).received
+        ≠ ((run init (cursorTrace c rows between)).conns c).sent :=
+  ⟨0, [[1, 1]], [Ev.borrow 1, Ev.write 1 [9, 9], Ev.deliver 1, Ev.release 1], by simp [CursorRegion], by decide⟩
+
+/-- Outside the region — nothing else executes between the EXECUTE and the FETCH — the late read
+is still exact, for any rows. -/
+theorem cursor_exact_partial (c : Nat) (rows : List (List Nat)) (between : List Ev)
+    (h : ¬ CursorRegion between) :
+    ((run init (cursorTrace c rows between)).conns c).received
+      = ((run init (cursorTrace c rows between)).conns c).sent := by
+  have hb : between = [] := by
+    apply Classical.byContradiction; intro x; exact h x
+  subst hb
+  exact cursor_alone_exact c rows
+
+example : ((run init (cursorTrace 3 [[1, 2], [3]] [])).conns 3).received = [[1, 2], [3]] := by decide
+
+/-! #### Known finding without a Lean model: `cursor_multibatch_cancelled_by_conn_watcher`
+
+A server-side cursor on a result of more than `rowsBatch` rows: the handler is still inside
+`doQuery` (parked in the callback until the cursor takes the next batch) when the client's
+COM_STMT_FETCH arrives; once the statement is older than the connection watcher's start delay the
+watcher (server/connwatch.go) takes the FETCH for "client wrote to connection while a query was
+executing" and cancels the statement; the FETCH is never answered. Timers, the socket and the
+watcher are outside every model of this property (see `level_note`), so there is no witness theorem;
+the witness is replayed on the real server by the `cursor` stream (a pausing client on a 129…300-row
+result), and the region is decided on the case (cursor ∧ more than one callback). -/
+
+end Buffer
+
+/-! ### The spooling dispatch -/
+section Dispatch
+open Gms.Spool
+
+/-- The dispatch chain of `doQuery` and the error of the max-1-row helper, as in the source. -/
+theorem facts_match_dispatch :
+    Gms.Generated.C35.dispatchChain =
+      ["types.IsOkResultSchema(schema) => resultForOkIter",
+       "schema == nil => resultForEmptyIter",
+       "analyzer.FlagIsSet(qFlags, sql.QFlagMax1Row) => resultForMax1RowIter",
+       "vr, ok := rowIter.(sql.ValueRowIter); ok && vr.IsValueRowIter(sqlCtx) => resultForValueRowIter",
+       "else => resultForDefaultIter"] ∧
+    Gms.Generated.C35.max1RowError = "result max1Row iterator returned more than one row" := by
+  decide
+
+theorem map_length_replicate {α : Type} (l : List (List α)) (B : Nat) (h : ∀ b ∈ l, b.length = B) :
+    l.map List.length = List.replicate l.length B := by
+  induction l with
+  | nil => rfl
+  | cons x xs ih =>
+    have hx : x.length = B := h x (by simp)
+    have := ih (fun b hb => h b (by simp [hb]))
+    simp [List.replicate_succ, hx, this]
+
+theorem flatten_length_all {α : Type} (l : List (List α)) (B : Nat) (h : ∀ b ∈ l, b.length = B) :
+    l.flatten.length = l.length * B := by
+  induction l with
+  | nil => simp
+  | cons x xs ih =>
+    have hx : x.length = B := h x (by simp)
+    have := ih (fun b hb => h b (by simp [hb]))
+    simp [hx, this, Nat.succ_mul]; omega
+
+/-- The batching pipeline's callbacks have the closed form the dispatch model uses: for every
+schedule of the three goroutines, `n / B` batches of `B` rows and then the rest. -/
+theorem callbacks_sizes {α : Type} (c : Cfg) (input : List α) (s : St α) (hB : 0 < c.B)
+    (h : Reach c input s) (hf : Final s) :
+    (clientCallbacks s).map List.length = batchSizes c.B input.length := by
+  obtain ⟨hrows, hdel, hcur⟩ := pipeline_order_lossless c input s h hf
+  have hlen : input.length = s.delivered.length * c.B + s.cur.length := by
+    rw [← hrows]; simp [clientRows, flatten_length_all s.delivered c.B hdel]
+  have hdiv : input.length / c.B = s.delivered.length := by
+    rw [hlen, Nat.add_comm, Nat.add_mul_div_right _ _ hB, Nat.div_eq_of_lt hcur]; simp
+  have hmod : input.length % c.B = s.cur.length := by
+    rw [hlen, Nat.add_comm, Nat.add_mul_mod_self_right, Nat.mod_eq_of_lt hcur]
+  have hmap := map_length_replicate s.delivered c.B hdel
+  unfold batchSizes clientCallbacks
+  rw [hdiv, hmod]
+  cases hc : s.cur with
+  | nil =>
+    cases hd : s.delivered with
+    | nil => simp
+    | cons b bs => rw [hd] at hmap; simp [hmap]
+  | cons x xs => simp [hmap]
+
+/-- Exactness of the dispatch: if the iterator has the shape its schema promises and the analyzer's
+flag is sound, every strategy hands the client exactly what the Spec demands. -/
+theorem dispatch_exact (B : Nat) (q : Q) (hB : 1 < B) (hw : WellShaped q) (hs : FlagSound q) :
+    handler B q = spec B q := by
+  obtain ⟨hok, hnone⟩ := hw
+  unfold handler spec
+  cases hk : q.kind with
+  | ok => simp [hok hk]
+  | none => simp [hnone hk]
+  | rows =>
+    cases hm : q.max1 with
+    | false => simp
+    | true =>
+      have hn : q.n ≤ 1 := hs hm
+      have h01 : q.n = 0 ∨ q.n = 1 := by omega
+      rcases h01 with h0 | h1
+      · simp [h0, batchSizes]
+      · have hd : 1 / B = 0 := Nat.div_eq_of_lt hB
+        have hmd : 1 % B = 1 := Nat.mod_eq_of_lt hB
+        simp [h1, batchSizes, hd, hmd]
+
+/-- The client is sent all `n` rows. -/
+theorem batchSizes_sum (B n : Nat) : (batchSizes B n).sum = n := by
+  unfold batchSizes
+  have := Nat.div_add_mod n B
+  by_cases h : n % B ≠ 0 ∨ n / B = 0
+  · simp only [h, if_true, List.sum_append, List.sum_replicate_nat, List.sum_cons, List.sum_nil]
+    rw [Nat.mul_comm] at this; omega
+  · simp only [h, if_false, List.sum_append, List.sum_replicate_nat, List.sum_nil]
+    have h0 : n % B = 0 := by
+      apply Classical.byContradiction; intro x; exact h (Or.inl x)
+    rw [Nat.mul_comm] at this; omega
+
+/-- With a sound flag the flag is unobservable: the client sees the same with and without it (the
+in-process engine ignores it). -/
+theorem flag_unobservable (B : Nat) (q : Q) (hB : 1 < B) (hw : WellShaped q) (hs : FlagSound q) :
+    handler B q = handler B { q with max1 := false } := by
+  rw [dispatch_exact B q hB hw hs,
+    dispatch_exact B { q with max1 := false } hB hw (by intro h; simp at h)]
+  rfl
+
+/-- The soundness of the flag is necessary: a statement that carries the flag and yields two or
+more rows fails over the wire, while the Spec (and the in-process engine) delivers the rows. -/
+theorem unsound_max1_flag_errors (B : Nat) (q : Q) (hk : q.kind = .rows) (hm : q.max1 = true)
+    (hn : 2 ≤ q.n) : handler B q = .err ∧ spec B q = .cbs (batchSizes B q.n) := by
+  have : ¬ q.n ≤ 1 := by omega
+  simp [handler, spec, hk, hm, this]
+
+/-- Non-vacuity: three NULLs under a UNIQUE index, flag wrongly set. -/
+example : handler 128 { kind := .rows, max1 := true, n := 3 } = .err ∧
+    spec 128 { kind := .rows, max1 := true, n := 3 } = .cbs [3] := by decide
+
+example : handler 128 { kind := .rows, max1 := false, n := 300 } = .cbs [128, 128, 44] ∧
+    handler 128 { kind := .rows, max1 := true, n := 1 } = .cbs [1] ∧
+    handler 128 { kind := .ok, max1 := false, n := 1 } = .cbs [0] ∧
+    handler 128 { kind := .none, max1 := false, n := 0 } = .cbs [0] := by decide
+
+end Dispatch
 
 end Gms.C35
